@@ -165,6 +165,14 @@ def static_ownership():
             if keep:
                 S = S & keep
         bad = sorted(set(S) & set(M))
+        # attributes clone() copies only one level deep, with nested containers the sweep changes in place
+        nested = ow.nested_stores(cls, entry)
+        for attr, fresh_keys in ow.shallow.get(cls, {}).items():
+            keys = nested.get(attr, set()) - fresh_keys
+            if keys:
+                out.append((f'clone.fresh[{cls}].{attr}', 'refuted',
+                            f'{cls}.clone() copies attribute {attr!r} one level deep only; the sweep stores in place below '
+                            f'its nested entries {sorted(map(str, keys))}, which stay shared with the template'))
         if bad:
             for a in bad:
                 out.append((f'clone.fresh[{cls}].{a}', 'refuted',
@@ -227,6 +235,10 @@ def _state(a):
     out = [a.temp_coolant.copy(), a.temp_duct_mw.copy(), np.array([a.pressure_drop])]
     if a.temp_bypass is not None:
         out.append(a.temp_bypass.copy())
+    # the assembly's own bookkeeping: peaks (value, height) and delivered power
+    out.append(np.array(a._peak['cool'], dtype=float))
+    out.append(np.array(a._peak['duct'], dtype=float).ravel())
+    out.append(np.array([a._power_delivered[k] for k in sorted(a._power_delivered)], dtype=float))
     if a.has_rodded and getattr(a.rodded, 'pin_model', None) is not None:
         out.append(np.array(a.rodded.pin_temps, dtype=float).copy())
         for k in sorted(a._peak.get('pin', {})):
